@@ -434,23 +434,58 @@ def analyse_private(M, X, frozen=(), model_kinds=None):
                 if not ok: break
             if ok and len(cands) == 1:
                 root_of[r] = next(iter(cands)); changed = True
+    # pointers re-loaded from the thread's own stack may alias any fresh object whose address was stashed there
+    stashed = set()
+    for b in X.blocks.values():
+        for i in b:
+            if i.op == 'store' and i.a[0][0] == 'reg' and i.a[0][1] in root_of and i.a[1][0] == 'reg' and i.a[1][1] in stack:
+                stashed.add(root_of[i.a[0][1]])
+    taint = set()
+    for r, il in defs.items():
+        if any(i.op == 'load' and i.a[0][0] == 'reg' and i.a[0][1] in stack for i in il): taint.add(r)
+    changed = True
+    while changed:
+        changed = False
+        for r, il in defs.items():
+            if r in taint: continue
+            for i in il:
+                if i.op in ('gep', 'cast', 'copy', 'freeze', 'phi', 'select', 'extractvalue', 'insertvalue'):
+                    if any(v is not None and v[0] == 'reg' and v[1] in taint for v in ins_operands(i)):
+                        taint.add(r); changed = True; break
+    X.taint = taint
     # escape uses
     def escapes_in(i):
         """roots escaping at instruction i"""
         out = set()
         def R(v):
             return root_of.get(v[1]) if (v is not None and v[0] == 'reg') else None
+        def TA(v):
+            return v is not None and v[0] == 'reg' and v[1] in taint
+        def ST(v):
+            return v is not None and v[0] == 'reg' and v[1] in stack
         o, a = i.op, i.a
         if o == 'store':
-            if R(a[0]): out.add(R(a[0]))
+            if R(a[0]) and not ST(a[1]): out.add(R(a[0]))
+            if TA(a[0]) and not ST(a[1]): out.update(stashed)
         elif o == 'cas':
             for v in (a[2], a[3]):
                 if R(v): out.add(R(v))
+                if TA(v): out.update(stashed)
         elif o == 'rmw':
             if R(a[2]): out.add(R(a[2]))
+            if TA(a[2]): out.update(stashed)
         elif o == 'call':
-            for (_, v, _) in a[1]:
-                if R(v): out.add(R(v))
+            cn = a[0][1] if a[0][0] == 'glob' else ''
+            if cn.startswith('@llvm.memset') or cn.startswith(('@vp_assert', '@vp_assume', '@vp_g', '@vp_cover', '@vp_win_', '@vp_log')):
+                pass
+            elif cn.startswith(('@llvm.memcpy', '@llvm.memmove')):
+                dst, src = a[1][0][1], a[1][1][1]
+                if R(src) and not ST(dst) and not R(dst): out.add(R(src))
+                if (ST(src) or TA(src)) and not ST(dst): out.update(stashed)
+            else:
+                for (_, v, _) in a[1]:
+                    if R(v): out.add(R(v))
+                    if TA(v) or ST(v): out.update(stashed)
         elif o in ('phi', 'select', 'copy', 'freeze', 'gep', 'cast'):
             if i.dst not in root_of or (o == 'cast' and a[0] != 'bitcast'):
                 for v in ins_operands(i):
@@ -458,6 +493,7 @@ def analyse_private(M, X, frozen=(), model_kinds=None):
         elif o in ('ret', 'insertvalue', 'bin', 'reraise'):
             for v in ins_operands(i):
                 if R(v): out.add(R(v))
+                if o == 'ret' and TA(v): out.update(stashed)
         return out
     # forward dataflow
     esc_in = {b: set() for b in X.blocks}
